@@ -784,6 +784,40 @@ def replay_two_files_data(p):
 
 
 
+def replay_declared_count(p):
+    """Declared length of the record sequence against the records it yields (deterministic), on the real package."""
+    _quiet()
+    from dliswriter import DLISFile
+    n1, n2, extra, nf, two = p['args'][:5]
+    df = DLISFile()
+    lf1 = df.add_logical_file(fh_id='LF1')
+    lf1.add_origin('O1', file_set_number=1, creation_time='2020/01/01 00:00:00', set_name='S1')
+    c1 = lf1.add_channel('A', data=np.arange(n1, dtype=np.int32), set_name='S1')
+    lf1.add_frame('F1', channels=(c1,), set_name='S1')
+    for k in range(extra):
+        lf1.add_zone('Z' + str(k), set_name='S1')
+    last = lf1
+    if two:
+        lf2 = df.add_logical_file(fh_id='LF2', fh_sequence_number=2)
+        lf2.add_origin('O2', file_set_number=1, creation_time='2020/01/01 00:00:00', set_name='S2')
+        c2 = lf2.add_channel('B', data=np.arange(n2, dtype=np.int32), set_name='S2')
+        lf2.add_frame('F2', channels=(c2,), set_name='S2')
+        last = lf2
+    if nf > 0:
+        nfo = last.add_no_format('N', set_name='S2' if two else 'S1')
+        for k in range(nf):
+            last.add_no_format_frame_data(nfo, 'ab')
+    sized = df.generate_logical_records(chunk_size=None)
+    declared = len(sized)
+    actual = sum(1 for _ in sized)
+    bad = ''
+    if declared < actual - 1:
+        bad = (f'generate_logical_records declares {declared} records and yields {actual}: the progress bar of '
+               f'write_logical_records raises "Value {declared + 1} is too large" when it redraws past its maximum '
+               f'(slow, i.e. large, records)')
+    return _res(bad, {'declared': declared, 'actual': actual}, {'declared': declared, 'actual': actual, 'two': bool(two)})
+
+
 def replay_frame_number(p):
     """A FrameData record with the given frame number, built with the real classes and decoded by the strict reader."""
     _quiet()
